@@ -59,7 +59,7 @@ def rec(k, a, kw):
     """every original / replacement ends here: who was reached, with which arguments"""
     bound = "none"
     if len(a) == 2:
-        bound = "inst" if a[0] is ST.inst else "other"
+        bound = "inst" if a[0] is ST.inst else "cls" if a[0] is ST.mod.Cls else "other"
     elif len(a) != 1:
         bound = "argc%d" % len(a)
     x = a[-1] if a else "missing"
@@ -88,7 +88,7 @@ def make_module():
         @asynq_deco()
         @classmethod
         def cmeth(cls, x, y=0):
-            return rec(0, (x,), {"y": y})
+            return rec(0, (cls, x), {"y": y})
 
         @asynq_deco()
         @staticmethod
@@ -156,6 +156,10 @@ def replacement_object(repl, k):
         o = ST.keep[-1].method
     elif repl == "callobj":
         o = CallObj(k)
+    elif repl == "classmethod":
+        o = classmethod(lambda cls, *a, **kw: rec(k, (cls,) + a, kw))
+    elif repl == "staticmethod":
+        o = staticmethod(lambda *a, **kw: rec(k, a, kw))
     else:
         o = ST.values[k] = Val(k)
     ST.objs[k] = o
@@ -165,7 +169,7 @@ def replacement_object(repl, k):
 def make_patcher(target, api, repl, k, share):
     name, holder, attr = TARGETS[target]
     args, kwargs = [], {}
-    if repl in ("function", "boundmeth", "callobj", "value"):
+    if repl in ("function", "boundmeth", "callobj", "value", "classmethod", "staticmethod"):
         args = [replacement_object(repl, share or k)]
     elif repl == "newcallable":
         kwargs = {"new_callable": lambda: mock.MagicMock(side_effect=lambda *a, **kw: rec(k, a, kw))}
@@ -192,76 +196,130 @@ def slot_token(target):
     return "other"
 
 
-def accessor(target):
+def accessor(target, path):
     m = ST.mod
     if target == "modfn":
         return m.fn
     if target == "modfn2":
         return m.fn2
-    if target == "meth":
-        return ST.inst.meth
-    if target == "cmeth":
-        return m.Cls.cmeth
-    if target == "smeth":
-        return m.Cls.smeth
-    return m.Cls.attr
+    return getattr(ST.inst if path == "inst" else m.Cls, {"meth": "meth", "cmeth": "cmeth", "smeth": "smeth", "attr": "attr"}[target])
 
 
-_RUNNER = []
+_LOOP = []
 
 
 def run_coroutine(coro):
-    """asyncio.run(coro), without building and tearing down a new event loop for each of the ~10^6 calls:
-    asyncio.Runner is what asyncio.run itself uses; one runner (one loop) serves the whole replay process"""
-    if not hasattr(asyncio, "Runner"):
-        return asyncio.run(coro)
-    if not _RUNNER:
-        _RUNNER.append(asyncio.Runner())
-    return _RUNNER[0].run(coro)
+    """awaits the coroutine on an asyncio event loop, like asyncio.run(coro) but on ONE loop per replay process:
+    building and tearing down a loop (and its signal handlers) for each of the ~10^6 calls dominates the run time"""
+    if not _LOOP:
+        _LOOP.append(asyncio.new_event_loop())
+    return _LOOP[0].run_until_complete(coro)
 
 
-def do_call(target, conv, x, y):
+GATHER = 3
+
+
+@asynq_deco()
+def yield_caller(f, x, y):
+    v = yield f.asynq(x, y=y)
+    return v
+
+
+def do_call(target, path, conv, x, y):
     ST.calls = []
     if conv == "read":
         return {"conv": conv, "slot": slot_token(target)}
+    xs = [x]
     try:
-        f = accessor(target)
+        f = accessor(target, path)
         if conv == "sync":
             r = f(x, y=y)
         elif conv == "asynq":
             r = f.asynq(x, y=y).value()
         elif conv == "yield":
-            @asynq_deco()
-            def caller():
-                v = yield f.asynq(x, y=y)
-                return v
-            r = caller()
+            r = yield_caller(f, x, y)
         elif conv == "asyncio":
             r = run_coroutine(f.asyncio(x, y=y))
+        elif conv == "gather":
+            xs = [x + 1000 * (j + 1) for j in range(GATHER)]
+
+            async def fan_out():
+                pending = [f.asyncio(xj, y=y) for xj in xs]     # all created before any is awaited
+                return await asyncio.gather(*pending)
+            r = run_coroutine(fan_out())
         else:
             r = "unknown convention"
     except BaseException as e:
         asynq.scheduler.reset()
         return {"conv": conv, "raised": "%s: %s" % (type(e).__name__, e)}
-    if len(ST.calls) != 1:
+    if len(ST.calls) != len(xs):
         return {"conv": conv, "reached": ST.calls, "result": repr(r)}
+    if any(c["extra"] for c in ST.calls):
+        return {"conv": conv, "extra_kwargs": [c["extra"] for c in ST.calls]}
     c = ST.calls[0]
-    if c["extra"]:
-        return {"conv": conv, "extra_kwargs": c["extra"]}
+    if conv == "gather":
+        same = all(d["reach"] == c["reach"] and d["bound"] == c["bound"] and d["y"] == c["y"] for d in ST.calls)
+        ok = same and sorted(d["x"] for d in ST.calls) == xs and r == [["r", c["reach"], xj, y] for xj in xs]
+        return {"conv": conv, "reach": c["reach"], "bound": c["bound"], "x": x, "y": c["y"], "result": "agrees" if ok else repr((r, ST.calls))}
     ok = r == ["r", c["reach"], x, y]
     return {"conv": conv, "reach": c["reach"], "bound": c["bound"], "x": c["x"], "y": c["y"], "result": "agrees" if ok else repr(r)}
 
 
-def xval(t, n):
-    return 10 * t + n + 1
+def do_async_pair(target, path, x1, x2, y):
+    """the conventions "asyncio" (one coroutine awaited alone, argument x1) and "gather" (GATHER coroutines created
+    first, then awaited together, arguments x2 + 1000, x2 + 2000, ...) in ONE event loop run; -> two observations"""
+    ST.calls = []
+    xs = [x2 + 1000 * (j + 1) for j in range(GATHER)]
+    mark = {}
+    try:
+        f = accessor(target, path)
+
+        async def both():
+            r1 = await f.asyncio(x1, y=y)
+            mark["n"] = len(ST.calls)
+            pending = [f.asyncio(xj, y=y) for xj in xs]     # all created before any is awaited
+            return r1, await asyncio.gather(*pending)
+        r1, r2 = run_coroutine(both())
+    except BaseException as e:
+        asynq.scheduler.reset()
+        err = {"raised": "%s: %s" % (type(e).__name__, e)}
+        return dict(err, conv="asyncio"), dict(err, conv="gather")
+    calls = ST.calls
+    out = []
+    for conv, cs, want_xs, r in (("asyncio", calls[:mark["n"]], [x1], [r1]), ("gather", calls[mark["n"]:], xs, r2)):
+        if len(cs) != len(want_xs):
+            out.append({"conv": conv, "reached": cs, "result": repr(r)})
+        elif any(c["extra"] for c in cs):
+            out.append({"conv": conv, "extra_kwargs": [c["extra"] for c in cs]})
+        else:
+            c = cs[0]
+            same = all(d["reach"] == c["reach"] and d["bound"] == c["bound"] and d["y"] == c["y"] for d in cs)
+            ok = same and sorted(d["x"] for d in cs) == want_xs and list(r) == [["r", c["reach"], xj, y] for xj in want_xs]
+            out.append({"conv": conv, "reach": c["reach"], "bound": c["bound"], "x": x1 if conv == "asyncio" else x2, "y": c["y"],
+                        "result": "agrees" if ok else repr((r, cs))})
+    return out[0], out[1]
+
+
+def xval(t, a, n):
+    return 100 * t + 10 * a + n + 1
 
 
 def observe(case, i):
-    """per target: the slot, and one call through every convention the model lists for this step"""
+    """per target: the slot, and per access path one call through every convention the model lists for this step"""
     out = []
     for t, target in enumerate(targets_of(case)):
-        convs = case["h"][i]["res"][t]["convs"]
-        out.append({"slot": slot_token(target), "calls": [do_call(target, c, xval(t, n), i + 1) for n, c in enumerate(convs)]})
+        want = case["h"][i]["res"][t]
+        convs = want["convs"]
+        paths = []
+        for a, pa in enumerate(want["paths"]):
+            if convs[-2:] == ["asyncio", "gather"]:
+                n = len(convs) - 2
+                got = [do_call(target, pa["path"], c, xval(t, a, m), i + 1) for m, c in enumerate(convs[:-2])]
+                got += list(do_async_pair(target, pa["path"], xval(t, a, n), xval(t, a, n + 1), i + 1))
+            else:
+                got = [do_call(target, pa["path"], c, xval(t, a, m), i + 1) for m, c in enumerate(convs)]
+            paths.append(got)
+        out.append({"slot": slot_token(target), "paths": paths})
     return out
 
 
@@ -413,16 +471,19 @@ def mismatch(o, g, step):
         what = "restored" if want["slot"] == "orig" else "active"
         if want["slot"] != gt.get("slot"):
             return what
-        gc = gt.get("calls") or []
-        if len(gc) != len(want["convs"]):
+        gp = gt.get("paths") or []
+        if len(gp) != len(want["paths"]):
             return what
-        for n, (conv, c) in enumerate(zip(want["convs"], gc)):
-            if conv == "read":
-                if c.get("slot") != want["slot"]:
-                    return what
-                continue
-            if c.get("reach") != want["reach"] or c.get("x") != xval(t, n) or c.get("y") != step or c.get("result") != "agrees" or c.get("bound") != want["bound"]:
+        for a, (pa, gc) in enumerate(zip(want["paths"], gp)):
+            if len(gc) != len(want["convs"]):
                 return what
+            for n, (conv, c) in enumerate(zip(want["convs"], gc)):
+                if conv == "read":
+                    if c.get("slot") != want["slot"]:
+                        return what
+                    continue
+                if c.get("reach") != want["reach"] or c.get("x") != xval(t, a, n) or c.get("y") != step or c.get("result") != "agrees" or c.get("bound") != pa["bound"]:
+                    return what
     return None
 
 
